@@ -458,6 +458,15 @@ func rollupCommitBeforeClean(c *eng.Ctx) {
 		}
 	}
 	if body == nil {
+		// the per-target work moved into an unexported helper: the body is the function that commits the source's edit log and
+		// reaches doRollupWork through that helper
+		for _, cl := range cands {
+			if len(p.SitesDirect(cl, eng.CallTo(famT+".commitEditLog"))) > 0 && len(p.Sites(cl, invokeOn("", "doRollupWork"))) > 0 {
+				body = cl
+			}
+		}
+	}
+	if body == nil {
 		c.Undecided("rollup goroutine body not found")
 	}
 	work := c.One(body, invokeOn("", "doRollupWork"), "targetFamily.doRollupWork")
